@@ -438,6 +438,18 @@ func (jenny RawTypes) disjunctionFromJSON(context languages.Context, typeDef ast
 
 	typingPkg := jenny.importPkg("typing", "typing")
 
+	// the mapping holds the names of the objects: the class is the one of the branch an
+	// entry designates, which can live in the module of another package.
+	classFor := func(objectName string) string {
+		for _, branch := range disjunction.Branches {
+			if branch.IsRef() && branch.Ref.ReferredType == objectName {
+				return jenny.typeFormatter.formatFullyQualifiedRef(branch.AsRef(), false)
+			}
+		}
+
+		return formatObjectName(objectName)
+	}
+
 	decodingMap := "{"
 	branchTypes := make([]string, 0, len(disjunction.Branches))
 	defaultBranch := ""
@@ -448,8 +460,7 @@ func (jenny RawTypes) disjunctionFromJSON(context languages.Context, typeDef ast
 			continue
 		}
 
-		// the mapping holds the names of the objects: classes are named after them
-		objectRef := formatObjectName(disjunction.DiscriminatorMapping[discriminator])
+		objectRef := classFor(disjunction.DiscriminatorMapping[discriminator])
 		decodingMap += fmt.Sprintf(`"%s": %s, `, discriminator, objectRef)
 		branchTypes = append(branchTypes, fmt.Sprintf("%s.Type[%s]", typingPkg, objectRef))
 	}
@@ -463,7 +474,7 @@ func (jenny RawTypes) disjunctionFromJSON(context languages.Context, typeDef ast
 	decodingCall := fmt.Sprintf(`%[3]s[%[2]s["%[1]s"]].from_json(%[2]s)`, disjunction.Discriminator, inputVar, decodingMapName)
 
 	if defaultBranchType, ok := disjunction.DiscriminatorMapping[ast.DiscriminatorCatchAll]; ok {
-		defaultBranch = fmt.Sprintf(`, %s`, formatObjectName(defaultBranchType))
+		defaultBranch = fmt.Sprintf(`, %s`, classFor(defaultBranchType))
 
 		decodingCall = fmt.Sprintf(`%[4]s.get(%[3]s["%[1]s"]%[2]s).from_json(%[3]s)`, disjunction.Discriminator, defaultBranch, inputVar, decodingMapName)
 	}
